@@ -587,8 +587,11 @@ func c15Body(nWork int, bound int) explore.Body {
 		}
 		complete := got.equal(truth)
 		if complete {
-			x.Outcome = "error-only-touched-by-read-ahead-or-reported-late"
-			return nil // complete and correct: nothing was lost
+			if got.err == nil || errors.Is(got.err, io.EOF) {
+				return vio("C15:error-swallowed", "source returned an I/O error to the reader (fired %d) but the read ended cleanly (%v) with complete results%s", src.Fired, got.err, ctxs)
+			}
+			x.Outcome = "error-reported-after-complete-results"
+			return nil // complete, correct, and the error was reported
 		}
 		if got.err == nil || errors.Is(got.err, io.EOF) {
 			return vio("C15:error-as-eof", "source returned an I/O error but the read ended cleanly (%v) with %d/%d tokens, %d/%d messages%s", got.err, len(got.toks), len(truth.toks), len(got.triples), len(truth.triples), ctxs)
@@ -610,7 +613,7 @@ func C15(r *chk.Run) {
 		n, bound = 3, 1
 	}
 	r.Rule("files {workloads} x {unchunked, none, zstd, lz4}; 8 readers (lexer, validating lexer, lexer without attachment callback, non-indexed iterator, indexed iterator in 3 orders, Info); delivery policies full / 1-byte / halving / 7-byte / data+EOF / a short read (1 or n-1 bytes) at every k-th Read call; an injected non-EOF error at every byte position 0..len and at every k-th Seek, sticky and one-shot; deviation bound on (short read, error) combinations as reported per phase")
-	r.Assume("an injected error that the reader only met through read-ahead (results complete and correct) is not a violation; the property forbids loss, i.e. a clean end with records missing")
+	r.Assume("an injected error counts once the source has actually returned it to the reader (Fired > 0): from then on the read must end with a non-EOF error, also when every record had already been delivered (an error swallowed behind complete results is a violation, sig error-swallowed); an error position the reader never asked for is no error")
 	r.Phase("delivery-and-errors", c15Body(n, bound), chk.PhaseOpts{Bound: bound, SplitLen: 5})
 	if r.Thorough() && r.TimeLeft() {
 		r.Phase("delivery-and-errors-bound2", c15Body(1, 2), chk.PhaseOpts{Bound: 2, SplitLen: 5})
